@@ -95,8 +95,10 @@ class AbstractWorker:
             self.worker_comms.reset_results_received(self.worker_id)
 
             # Set tqdm and dashboard connection details. This is needed for nested pools and in the case forkserver or
-            # spawn is used as start method
-            TqdmManager.set_connection_details(self.tqdm_connection_details)
+            # spawn is used as start method. A worker thread shares the tqdm manager with the main thread: the details it
+            # was given when it was created can be outdated by the time it runs
+            if self.pool_params.start_method != 'threading':
+                TqdmManager.set_connection_details(self.tqdm_connection_details)
             set_dashboard_connection(self.dashboard_connection_details, auto_connect=False)
 
             # Store how long it took to start up
